@@ -1067,15 +1067,15 @@ def pack_dir_stage(tools, work, rep, ev, tier):
     on a fixed source tree (file with xattr + second name in a sub directory, directory, symlink; distinct owners, time 5000): the
     image decoded independently must be the specified tree.  Needs root (chown, trusted file system attributes)."""
     cfg = work + "/pd.cfg"
-    C = {"Emit": False, "KeepTimeAppliesToRoot": False, "ForcedOwnerSkipsRoot": False, "MapFileGetsHostPath": False}
-    write_cfg(cfg, spec="Spec", constants=C, invariants=["ForcedOwnerEverywhere", "RootFromDefaults", "MapFileApplies"], deadlock=False)
+    C = {"Emit": False, "KeepTimeAppliesToRoot": False, "ForcedOwnerSkipsRoot": False, "MapFileGetsHostPath": False, "SelinuxBeforeMap": False}
+    write_cfg(cfg, spec="Spec", constants=C, invariants=["ForcedOwnerEverywhere", "RootFromDefaults", "MapFileApplies", "LabelEverywhere"], deadlock=False)
     r = run_tlc("PackDir", cfg, workers=4, timeout=600)
     ev.tlc(r, "PackDir")
     if not r["ok"]:
         print("MODEL-FAILURE: PackDir violates %s" % r["violated"])
         return None
-    for dev in ("KeepTimeAppliesToRoot", "ForcedOwnerSkipsRoot", "MapFileGetsHostPath"):
-        write_cfg(cfg, spec="Spec", constants=dict(C, **{dev: True}), invariants=["ForcedOwnerEverywhere", "RootFromDefaults", "MapFileApplies"], deadlock=False)
+    for dev in ("KeepTimeAppliesToRoot", "ForcedOwnerSkipsRoot", "MapFileGetsHostPath", "SelinuxBeforeMap"):
+        write_cfg(cfg, spec="Spec", constants=dict(C, **{dev: True}), invariants=["ForcedOwnerEverywhere", "RootFromDefaults", "MapFileApplies", "LabelEverywhere"], deadlock=False)
         r = run_tlc("PackDir", cfg, workers=4, timeout=600)
         ev.tlc(r, "dev PackDir " + dev)
         if not r["violated"]:
@@ -1087,7 +1087,7 @@ def pack_dir_stage(tools, work, rep, ev, tier):
     write_cfg(cfg, spec="Spec", constants=dict(C, Emit=True), invariants=["EmitOK"], deadlock=False)
     r = run_tlc("PackDir", cfg, workers=2, timeout=600)
     cases = bpbind.parse_emitted(r["out"])
-    if len(cases) != 768:
+    if len(cases) != 1536:
         print("SELF-CHECK-FAILED: PackDir emitted %d option sets" % len(cases))
         return None
     src = work + "/pk"
@@ -1103,7 +1103,10 @@ def pack_dir_stage(tools, work, rep, ev, tier):
     for p_ in (src + "/a", src + "/l", src + "/d", src):
         os.utime(p_, (5000, 5000), follow_symlinks=False)
     mapf = work + "/pk_map.txt"
-    open(mapf, "w").write("# file: /a\nuser.map=\"frommap\"\n\n# file: /d\nuser.dirmap=0x414243\n")
+    open(mapf, "w").write("# file: /a\nuser.map=\"frommap\"\nsecurity.selinux=\"frommap\"\n\n# file: /d\nuser.dirmap=0x414243\n")
+    ctxf = work + "/pk_contexts"
+    open(ctxf, "w").write("/a\tsystem_u:object_r:a_t:s0\n/d(/.*)?\tsystem_u:object_r:d_t:s0\n")
+    SEL = {"none": None, "map": b"frommap", "a_t": b"system_u:object_r:a_t:s0", "d_t": b"system_u:object_r:d_t:s0", "unl": b"system_u:object_r:unlabeled_t:s0"}
     XAV = {"t": (b"user.t", b"1"), "map": (b"user.map", b"frommap"), "dirmap": (b"user.dirmap", b"ABC")}
 
     def do(i):
@@ -1112,7 +1115,7 @@ def pack_dir_stage(tools, work, rep, ev, tier):
         args = [tools + "/gensquashfs", "-q", "-f", "-c", "gzip", "-D", src]
         args += (["-k"] if o["k"] else []) + (["--all-root"] if o["own"] == "allroot" else ["--set-uid", "3"] if o["own"] == "u3" else [])
         args += (["--set-gid", "4"] if o["g4"] else []) + (["-H"] if o["H"] else []) + (["-x"] if o["x"] else []) + (["-o"] if o["o"] else [])
-        args += (["-A", mapf] if o["A"] else [])
+        args += (["-A", mapf] if o["A"] else []) + (["-s", ctxf] if o["s"] else [])
         sub = ",".join(x for x in ("mtime=99" if o["dm"] == "99" else "", "uid=55" if o["du"] == "55" else "") if x)
         if sub:
             args += ["--defaults", sub]
@@ -1132,8 +1135,12 @@ def pack_dir_stage(tools, work, rep, ev, tier):
                 want = (w["uid"], w["gid"], w["mtime"])
                 if got != want:
                     return "packdir-options", "gensquashfs --pack-dir %s: /%s has (uid, gid, mtime) %s, specified %s" % (desc, name.decode(), got, want)
-                if key != "root" and n["xattrs"] != dict(XAV[k] for k in w["xattr"]):
+                xa = dict(n["xattrs"])
+                label = xa.pop(b"security.selinux", None)
+                if key != "root" and xa != dict(XAV[k] for k in w["xattr"]):
                     return "packdir-options", "gensquashfs --pack-dir %s: /%s has xattrs %s, specified %s" % (desc, name.decode(), n["xattrs"], dict(XAV[k] for k in w["xattr"]))
+                if label != SEL[w["sel"]]:
+                    return "packdir-options", "gensquashfs --pack-dir %s: /%s carries the label %s, specified %s" % (desc, name.decode(), label, SEL[w["sel"]])
             if (t[b"a"]["inum"] == t[b"d/b"]["inum"]) != m["linked"]:
                 return "packdir-options", "gensquashfs --pack-dir %s: a and d/b %s one inode, specified %s" % (desc, "share" if t[b"a"]["inum"] == t[b"d/b"]["inum"] else "do not share", m["linked"])
             return None
